@@ -1,19 +1,20 @@
 P = "github.com/tochemey/goakt/v4/actor."
 SUB = {"(*" + P + "PID).doStop": P + "vC12_doStop"}
+MO = {"replay": "model-only"}
 CHECK = {
     "id": "C12",
     "packages": ["./actor"],
     "harness": ["actor/zz_verif_c12.go"],
     "entries": [
-        {"fn": P + "vC12_time1", "replay": "model-only", "tiers": ("x",)},
-        {"fn": P + "vC12_time2", "replay": "model-only", "tiers": ("x",)},
-        {"fn": P + "vC12_time3", "replay": "model-only", "tiers": ("x",)},
-        {"fn": P + "vC12_time4", "replay": "model-only", "tiers": ("quick",)},
-        {"fn": P + "vC12_count4", "replay": "model-only", "tiers": ("quick",)},
-        {"fn": P + "vC12_longlived", "replay": "model-only"},
-        {"fn": P + "vC12_race", "replay": "model-only"},
-        {"fn": P + "vC12_time5", "replay": "model-only", "tiers": ("thorough",)},
-        {"fn": P + "vC12_count5", "replay": "model-only", "tiers": ("thorough",)},
+        dict(MO, fn=P + "vC12_timeInit"),
+        dict(MO, fn=P + "vC12_timeStep"),
+        dict(MO, fn=P + "vC12_timeHistory2"),
+        dict(MO, fn=P + "vC12_race"),
+        dict(MO, fn=P + "vC12_countInit"),
+        dict(MO, fn=P + "vC12_countStep"),
+        dict(MO, fn=P + "vC12_countHistory3"),
+        dict(MO, fn=P + "vC12_countReregister"),
+        dict(MO, fn=P + "vC12_longlived"),
     ],
     "replace": [{"file": "actor/passivation_manager.go", "old": "messageTriggers: make(chan *passivationEntry, 1024),", "new": "messageTriggers: make(chan *passivationEntry, 4),"}],
     "opts": {"unwind": 8, "substitute": SUB, "go_inline": True, "select_precise": True},
